@@ -281,6 +281,16 @@ def run(cx):
         ob.require(bool(w) and not bad, "registration/no-shortcut",
                    "a connection can be dropped or closed between the handshake and ActivePeers::add (so the tie-break is not consulted): " + "; ".join(v.msg for v in bad)[:300],
                    "anemo::network::connection_manager::ConnectionManager::add_peer")
+        # ... and none is lost on the way: the manager's join arms poll the JoinSets' own join_next (cancel-safe) - an arm future
+        # that takes a finished handshake out and then suspends again loses it when another arm wins (C08.2 re-evaluated)
+        from . import c08
+        sub8 = cx.__class__("C05", prog, cx.tier, cx.config, cx.tree, repo=cx.repo)
+        c08.run(sub8)
+        w8 = [x for x in sub8.obs if x.oid == "C08.2"]
+        ob.count(sum(x.evals for x in w8))
+        bad8 = [v for x in w8 for v in x.violations if "/future" in v.key or "join-arms" in v.key or "loop/arms" in v.key or "precondition" in v.key]
+        ob.require(len(w8) == 1 and not bad8, "registration/no-output-lost", "a finished handshake can be dropped by the manager loop before it is registered: " + "; ".join(str(v.msg) for v in bad8)[:300],
+                   "anemo::network::connection_manager::ConnectionManager::start")
         # the only closes of a live duplicate are the two inside ActivePeersInner::add (winner keeps, loser closed)
         check_callers(ob, prog, "anemo::connection::Connection::close",
                       ["anemo::network::connection_manager::ActivePeersInner::add", "anemo::network::connection_manager::ActivePeersInner::remove",
